@@ -6,7 +6,7 @@ CONSTANTS
   Biases = {3, 4}
   Hidden = {7, 8}
   OutSet = {5, 6}
-  Shapes = {{1, 3, 5, 6}}
+  Shapes = {{1, 3, 5, 6}, {3, 4, 5}}
   WeightScheme <- WS4
   TdFlags = {FALSE, TRUE}
   RecKinds = {"none", "back", "all"}
